@@ -70,6 +70,27 @@ static void *t_realloc (void *p, size_t o, size_t n, void *ud) {
 static void t_free_all (void) { while (thead.next != &thead) { tblk *b = thead.next; thead.next = b->next; b->next->prev = &thead; free (b); } }
 static struct MIR_alloc talloc = {t_malloc, t_calloc, t_realloc, t_free, NULL};
 
+/* ------------------------------------------------------------------ pooled code allocator
+   MIR lets the user supply the code allocator (CUSTOM-ALLOCATORS.md); the harness maps pages RWX once and
+   recycles them, which removes ~90 mprotect/mmap system calls per context.  C17 uses the checking allocator instead. */
+#include <sys/mman.h>
+#define POOL_MAX 64
+static struct { void *p; size_t len; int used; } pool[POOL_MAX]; static int n_pool;
+static void *p_map (size_t len, void *ud) {
+  for (int i = 0; i < n_pool; i++) if (!pool[i].used && pool[i].len == len) { pool[i].used = 1; memset (pool[i].p, 0xCC, len); /* stale code must trap */ return pool[i].p; }
+  void *p = mmap (NULL, len, PROT_READ | PROT_WRITE | PROT_EXEC, MAP_PRIVATE | MAP_ANONYMOUS, -1, 0);
+  if (p == (void *) -1) return NULL;
+  if (n_pool < POOL_MAX) { pool[n_pool].p = p; pool[n_pool].len = len; pool[n_pool].used = 1; n_pool++; }
+  return p;
+}
+static int p_unmap (void *p, size_t len, void *ud) {
+  for (int i = 0; i < n_pool; i++) if (pool[i].p == p) { pool[i].used = 0; return 0; }
+  return munmap (p, len);
+}
+static int p_protect (void *p, size_t len, MIR_mem_protect_t prot, void *ud) { return 0; }
+static struct MIR_code_alloc pcalloc = {p_map, p_unmap, p_protect, NULL};
+static void pool_release_all (void) { for (int i = 0; i < n_pool; i++) pool[i].used = 0; }
+
 /* ------------------------------------------------------------------ contexts */
 jmp_buf mh_err_jb; mh_ctx *mh_cur; static int trap_armed;
 static void MIR_NO_RETURN err_func (MIR_error_type_t t, const char *fmt, ...) {
@@ -83,8 +104,7 @@ static void MIR_NO_RETURN err_func (MIR_error_type_t t, const char *fmt, ...) {
 
 int mh_open (mh_ctx *mc) {
   memset (mc, 0, sizeof *mc);
-  mc->ctx = MIR_init2 (&talloc, NULL);
-  /* MIR_init2 (alloc, NULL) selects the default code allocator */
+  mc->ctx = MIR_init2 (&talloc, getenv ("VP_DEFAULT_CODE_ALLOC") ? NULL : &pcalloc);
   MIR_set_error_func (mc->ctx, err_func);
   return 0;
 }
@@ -118,7 +138,7 @@ void mh_close (mh_ctx *mc) {
     trap_armed = 0;
   }
   /* after an error the context is abandoned; its heap blocks are dropped wholesale (code pages, if any, leak) */
-  t_free_all ();
+  t_free_all (); pool_release_all ();
   mc->ctx = NULL; mh_cur = NULL;
 }
 
